@@ -2,6 +2,7 @@ package c03
 
 import (
 	"bytes"
+	"encoding"
 	"encoding/json"
 	stderrors "errors"
 	"fmt"
@@ -144,6 +145,9 @@ func buildRequest(c Case, r Req, full bool) (*http.Request, middleware.RoutePara
 			}
 			if err := mw.Close(); err != nil {
 				return nil, nil, err
+			}
+			if r.CutTail > 0 && r.CutTail < b.Len() {
+				b.Truncate(b.Len() - r.CutTail)
 			}
 			body, ctype = &b, mw.FormDataContentType()
 		} else {
@@ -422,6 +426,30 @@ func scribble(v interface{}) {
 	}
 }
 
+// noValueForEmptyText: the Go type of the declaration reads itself from text and has no value for the empty text
+// (durations, the application's colour format): the binder leaves the target of such a parameter alone when the
+// parameter is absent, which the statement allows.
+func noValueForEmptyText(t reflect.Type) bool {
+	if t.Kind() == reflect.Ptr || t.Kind() == reflect.Interface {
+		return false
+	}
+	u, ok := reflect.New(t).Interface().(encoding.TextUnmarshaler)
+	return ok && u.UnmarshalText(nil) != nil
+}
+
+// cutForm: the request carries a multipart body whose end is missing.
+func cutForm(c Case, r Req) bool {
+	if r.CutTail == 0 || !r.Multipart {
+		return false
+	}
+	for _, d := range c.Decls {
+		if d.In == "formData" {
+			return true
+		}
+	}
+	return false
+}
+
 func CheckDirect(c Case) *kit.Violation {
 	if err := c.wellFormed(); err != nil {
 		return kit.Failf("malformed case: %v", err)
@@ -456,8 +484,12 @@ func CheckDirect(c Case) *kit.Violation {
 	}); v != nil {
 		return v
 	}
+	var pooled reflect.Value
 	for ri, r := range c.Reqs {
 		level := fmt.Sprintf("binder-direct, request %d", ri)
+		if c.ReuseTarget && ri > 0 {
+			level += " (struct target reused from the previous request)"
+		}
 		vs := c.verdicts(r)
 
 		req, rp, err := buildRequest(c, r, false)
@@ -469,7 +501,9 @@ func CheckDirect(c Case) *kit.Violation {
 		if v := kit.Guard("UntypedRequestBinder.Bind (map target)", func() { bindErr = mapBinder.Bind(req, rp, nil, &got) }); v != nil {
 			return kit.Failf("%s: %s\n%s", level, v.Msg, describeAll(c, r))
 		}
-		if bindErr != nil {
+		if bindErr != nil && cutForm(c, r) {
+			// the damaged body was refused as a whole: admissible, nothing to name
+		} else if bindErr != nil {
 			names := map[string]bool{}
 			named(bindErr, names)
 			if v := judgeRejected(c, r, vs, names, bindErr.Error(), level); v != nil {
@@ -492,6 +526,19 @@ func CheckDirect(c Case) *kit.Violation {
 			return kit.Failf("harness: %v", err)
 		}
 		target := reflect.New(structType)
+		if c.ReuseTarget {
+			if pooled.IsValid() {
+				target = pooled
+				// file fields are put back to nil by the pool: the binder does not touch the target of an optional file
+				// that was not sent, and the statement does not make it (tolerance, DESIGN.md section 6)
+				for i, d := range c.Decls {
+					if d.Type == "file" || noValueForEmptyText(d.goType()) {
+						target.Elem().Field(i).Set(reflect.Zero(target.Elem().Field(i).Type()))
+					}
+				}
+			}
+			pooled = target
+		}
 		var bindErr2 error
 		if v := kit.Guard("UntypedRequestBinder.Bind (struct target)", func() { bindErr2 = structBinder.Bind(req2, rp2, nil, target.Interface()) }); v != nil {
 			return kit.Failf("%s: %s\n%s", level, v.Msg, describeAll(c, r))
@@ -516,7 +563,7 @@ func CheckDirect(c Case) *kit.Violation {
 					return kit.Failf("%s: map target bound %q to %s, struct target to %s; %s", level, d.Name, show(mv), show(fv), describeReq(c, r, i))
 				}
 			}
-		} else {
+		} else if !cutForm(c, r) {
 			n1, n2 := map[string]bool{}, map[string]bool{}
 			named(bindErr, n1)
 			named(bindErr2, n2)
@@ -705,6 +752,9 @@ func CheckFull(c Case) *kit.Violation {
 				}
 			}
 		default:
+			if cutForm(c, r) && rec.Code >= 400 && !pr.ran {
+				continue // the damaged body was refused as a whole
+			}
 			anyErr := false
 			for _, v := range vs {
 				anyErr = anyErr || v.mustFail()
